@@ -186,10 +186,13 @@ func decodeTimestamp(s []byte) (time.Time, error) {
 // See copy_reflog_msg in refs.c:
 // https://github.com/git/git/blob/7ff1e8dc1e1680510c96e69965b3fa81372c5037/refs.c#L1026-L1049
 func normalizeMessage(msg string) string {
-	msg = strings.ReplaceAll(msg, "\n", " ")
-	msg = strings.ReplaceAll(msg, "\r", " ")
-	fields := strings.Fields(msg)
-	return strings.Join(fields, " ")
+	// git's isspace() is ASCII only: SP, TAB, LF and CR. Other bytes,
+	// including VT, FF and non-ASCII Unicode spaces, are kept verbatim.
+	return strings.Join(strings.FieldsFunc(msg, isGitSpace), " ")
+}
+
+func isGitSpace(r rune) bool {
+	return r == ' ' || r == '\t' || r == '\n' || r == '\r'
 }
 
 // Encode writes a single reflog entry to the writer.
